@@ -1961,7 +1961,7 @@ class StateEngine(object):
             ):
                 return
 
-            def on_response(result):
+            def on_response(result, is_task_output=False):
                 """
                 The use of the "errorType" field to report an error invoking a
                 Task isn't actually mentioned in the ASL specification, but this
@@ -1973,7 +1973,9 @@ class StateEngine(object):
                 """
                 error_type = None
                 # Ensure result is a dict before calling get() (it could be any JSON)
-                if isinstance(result, dict):
+                # (The output supplied by a SendTaskSuccess call is the result
+                # as it stands, is_task_output, whatever fields it has.)
+                if isinstance(result, dict) and not is_task_output:
                     if result.get("Error"):
                         # If error is a failed child state machine
                         error_type = "States.TaskFailed"
